@@ -17,6 +17,12 @@ Two scheduling regimes:
 * ``free``   no gates; `sys.setswitchinterval(1e-6)`, workers and feeder `sleep(0)`/spin at points drawn from a
   per-case seed; up to 200 items x 16 threads.
 
+* ``regen``  the real metadata-regeneration path: `operations.regen.regen_repository()` (which hands
+  `regen_iter` to map_async) over harness packages whose metadata access succeeds, raises MetadataException or
+  raises a generic exception at generated positions, with and without a repo `_regen_operation_helper`.  Expected
+  result = exactly one `(pkg, its own exception)` per generic failure, nothing for the others; every package is
+  visited exactly once.  Runs free (no gates) in the helper process with the same hang policy.
+
 Oracle (all from harness-side records): multiset(items seen by workers) == multiset(input); the returned
 deque, snapshotted the moment map_async returns, has exactly the results the functors produced (generator:
 every yielded value; per-thread value: one per worker that returned non-None; None: nothing); no pool thread is
@@ -327,7 +333,87 @@ class Run:
         return functor
 
     # ---- caller -----------------------------------------------------------------
+    def caller_regen(self, base_threads):
+        """mode 'regen': drive operations.regen.regen_repository over harness packages"""
+        from pkgcore.operations import regen
+        from pkgcore.package.errors import MetadataException
+
+        run = self
+        case = self.case
+        rnd_seed = case.get("wseed", 0)
+        tids = {}
+
+        class Pkg:
+            def __init__(self, idx, spec):
+                self.idx, self.spec = idx, spec
+                self.cpvstr = f"cat/pkg-{idx}"
+                self.rnd = random.Random(rnd_seed * 7919 + idx)
+
+            def __str__(self):
+                return self.cpvstr
+
+            def _visit(self):
+                run._pause(self.rnd)
+                with run.cv:
+                    wid = tids.setdefault(threading.get_ident(), len(tids))
+                    run.processed.append([wid, self.idx])
+                run._pause(self.rnd)
+                if self.spec == "meta":
+                    raise MetadataException(self, "keywords", f"bad metadata {self.idx}")
+                if self.spec == "err":
+                    raise ValueError(f"boom-{self.idx}")
+                if self.spec == "err2":
+                    raise KeyError(f"boom-{self.idx}")
+                return ("amd64",)
+
+            @property
+            def keywords(self):
+                return self._visit()
+
+        class Repo:
+            pass
+
+        class HelperRepo:
+            def _regen_operation_helper(self, **kwds):
+                with run.cv:
+                    run.pta_calls += 1
+                    if kwds != {"force": True}:
+                        run.badargs.append(f"helper kwds {kwds!r}")
+
+                def helper(pkg):
+                    return pkg._visit()
+
+                return helper
+
+        pkgs = [Pkg(i, sp) for i, sp in enumerate(case["items"])]
+        repo = HelperRepo() if case.get("helper") else Repo()
+        kwargs = {"force": True} if case.get("helper") else {}
+        try:
+            out = list(regen.regen_repository(repo, pkgs, None, threads=case["threads"], **kwargs))
+            me = threading.current_thread()
+            alive = [t.name for t in threading.enumerate() if t not in base_threads and t is not me and t.is_alive()]
+            snap = []
+            for r in out:
+                if isinstance(r, tuple) and len(r) == 2 and isinstance(r[0], Pkg):
+                    snap.append([r[0].idx, f"{type(r[1]).__name__}:{r[1].args[0] if getattr(r[1], 'args', None) else r[1]}"])
+                else:
+                    snap.append(["?", repr(r)])
+            with self.cv:
+                self.result = snap
+                self.alive_at_return = len(alive)
+                self.registered = len(tids)
+        except Exception as e:  # noqa: BLE001
+            b = core.pkg_frame_bucket(e)
+            with self.cv:
+                self.exc = [b, f"{type(e).__name__}: {e}"]
+        finally:
+            with self.cv:
+                self.caller_done = True
+                self.cv.notify_all()
+
     def caller(self, base_threads):
+        if self.case["mode"] == "regen":
+            return self.caller_regen(base_threads)
         from pkgcore.util.thread_pool import map_async
 
         kw = dict(self.fixed_kw)
@@ -508,7 +594,7 @@ def _child_main(rfd, wfd):
     signal.signal(signal.SIGINT, signal.SIG_DFL)
     for line in rf:
         case = json.loads(line)
-        sys.setswitchinterval(1e-6 if case["mode"] == "free" else 0.005)
+        sys.setswitchinterval(1e-6 if case["mode"] in ("free", "regen") else 0.005)
         try:
             obs = Run(case).control()
         except BaseException as e:  # noqa: BLE001
@@ -531,6 +617,7 @@ class Helper:
         self.pid = None
 
     def start(self):
+        import pkgcore.operations.regen  # noqa: F401
         import pkgcore.util.thread_pool  # noqa: F401  (import before forking: the helper starts warm)
 
         c2p_r, c2p_w = os.pipe()
@@ -614,7 +701,85 @@ class Helper:
 # parent side: oracle
 # =====================================================================================
 
+def judge_regen(ctx, case, obs):
+    """oracle for mode 'regen' (regen_repository over harness packages)"""
+    specs = case["items"]
+    n = len(specs)
+    cl = ["mode:regen", f"regen:threads:{case['threads']}", "regen:helper" if case.get("helper") else "regen:attr-access"]
+    cl.append("items:0" if n == 0 else "items:1" if n == 1 else "items:2-9" if n < 10 else "items:10+")
+    for k in ("meta", "err", "err2"):
+        if k in specs:
+            cl.append(f"regen:has_{k}")
+    # did some worker go on to another package after one that failed generically?
+    failed_workers = set()
+    continued = False
+    after_kinds = set()
+    for wid, idx in obs["processed"]:
+        if wid in failed_workers and isinstance(idx, int) and idx < n:
+            continued = True
+            after_kinds.add(specs[idx])
+        if isinstance(idx, int) and idx < n and specs[idx] in ("err", "err2"):
+            failed_workers.add(wid)
+    if continued:
+        cl.append("regen:worker_continued_after_generic_error")
+        for k in sorted(after_kinds):
+            cl.append(f"regen:after_error_{k}")
+    if len({w for w, _ in obs["processed"]}) >= 2:
+        cl.append("two_workers_busy")
+    ctx.case(case, nontrivial=n >= 2 and continued, classes=cl)
+
+    if obs.get("thread_exc"):
+        b, msg, tname, harness_fault = obs["thread_exc"][0]
+        if harness_fault:
+            raise core.HarnessError(f"C41 harness code raised inside a pool thread: {msg}")
+        ctx.violation(b or f"regen:pool-thread-died:{msg.split(':')[0]}", case, f"pool thread {tname} died during regen: {msg}")
+        return
+    if obs.get("exc"):
+        b, msg = obs["exc"]
+        if b is None:
+            raise core.HarnessError(f"C41 harness exception in regen caller: {msg}")
+        ctx.violation(b, case, msg)
+        return
+    if obs["hang"] == "deadlock":
+        ctx.violation("no-return:deadlock:regen", case, f"regen_repository never returned: all threads asleep (visited {len(obs['processed'])}/{n})")
+        return
+    if obs["hang"] == "timeout":
+        raise core.HarnessError(f"C41 inconclusive: regen wait exceeded {HARD_CAP}s without a provable deadlock, case {case}")
+    if obs["result"] is None:
+        raise core.HarnessError(f"C41 harness: no regen result and no exception for {case}: {obs}")
+    visits = Counter(idx for _w, idx in obs["processed"])
+    missing = [i for i in range(n) if visits[i] == 0]
+    twice = [i for i in range(n) if visits[i] > 1]
+    if missing:
+        ctx.violation("regen:pkg-not-visited", case, f"packages never regenerated: {missing[:6]}")
+    if twice:
+        ctx.violation("regen:pkg-visited-twice", case, f"packages regenerated more than once: {twice[:6]}")
+    exc_name = {"err": "ValueError", "err2": "KeyError"}
+    exp = Counter(_ikey([i, f"{exc_name[sp]}:boom-{i}"]) for i, sp in enumerate(specs) if sp in exc_name)
+    res = Counter(_ikey(r) for r in obs["result"])
+    if res - exp:
+        inv = sorted((res - exp).elements())
+        kinds = sorted({specs[json.loads(x)[0]] if isinstance(json.loads(x)[0], int) and json.loads(x)[0] < n else "?" for x in inv})
+        ctx.violation(
+            "regen:invented-result:" + "+".join(kinds),
+            case,
+            f"returned (pkg, error) pairs that no package produced: {inv[:4]} ({len(inv)} in all; specs={''.join(s[0] for s in specs)})",
+        )
+    if exp - res:
+        ctx.violation("regen:lost-result", case, f"generic failures missing from the result: {sorted((exp - res).elements())[:4]}")
+    if obs["alive_at_return"]:
+        ctx.violation("threads:alive-at-return:regen", case, f"{obs['alive_at_return']} pool thread(s) alive after regen_repository returned")
+    if obs["badargs"]:
+        ctx.violation("regen:helper-kwargs", case, f"{obs['badargs'][:2]}")
+    if case.get("helper") and n and obs["pta_calls"] < 1:
+        ctx.violation("regen:helper-not-used", case, "repo._regen_operation_helper was never called")
+    if obs["leftover"]:
+        raise core.HarnessError(f"C41 harness: {obs['leftover']} thread(s) could not be joined after regen, case {case}")
+
+
 def judge(ctx, case, obs):
+    if case["mode"] == "regen":
+        return judge_regen(ctx, case, obs)
     items = case["items"]
     n = len(items)
     by_worker = {}
@@ -757,10 +922,39 @@ def free_case(draw):
     }
 
 
+@st.composite
+def regen_case(draw):
+    n = draw(st.sampled_from([0, 1, 2, 3, 4, 6, 9, 14, 30]))
+    specs = draw(st.lists(st.sampled_from(["ok", "ok", "ok", "meta", "err", "err", "err2"]), min_size=n, max_size=n))
+    return {
+        "mode": "regen",
+        "items": specs,
+        "threads": draw(st.sampled_from([1, 1, 2, 2, 3, 4, 8])),
+        "helper": draw(st.booleans()),
+        "wseed": draw(st.integers(0, 10**6)),
+    }
+
+
+def regen_grid():
+    """every spec word up to length 4 over {ok, meta, err} with 1 and 2 threads (deterministic part)"""
+    import itertools
+
+    for n in range(0, 5):
+        for w in itertools.product(["ok", "meta", "err"], repeat=n):
+            for threads in (1, 2):
+                yield {"mode": "regen", "items": list(w), "threads": threads, "helper": (n + threads) % 2 == 0, "wseed": n}
+
+
 def plan(tier, seed):
+    import pkgcore.operations.regen  # noqa: F401
     import pkgcore.util.thread_pool  # noqa: F401  (warm import: forked task workers inherit it)
 
     tasks = []
+    # regen path first: small, deterministic grid + hypothesis; its first chunk ignores the wall-clock guard
+    tasks.append({"task": "regen_grid", "slice": 0, "nslices": 2})
+    tasks.append({"task": "regen_grid", "slice": 1, "nslices": 2})
+    for _ in range(2 if tier == "quick" else 8):
+        tasks.append({"task": "regen", "examples": 150 if tier == "quick" else 3000})
     if tier == "quick":
         tasks.append({"task": "dfs", "configs": [[2, 2, "sized", "gen"]], "cap": 150})
         for _ in range(6):
@@ -823,6 +1017,25 @@ def run_task(ctx, task, **kw):
             core.hyp_run(ctx, gated_case(), lambda c: run_one(ctx, helper, c), kw["examples"], chunk=15)
         elif task == "free":
             core.hyp_run(ctx, free_case(), lambda c: run_one(ctx, helper, c), kw["examples"], chunk=15, seed_salt=3)
+        elif task == "regen_grid":
+            deadline, ctx.deadline = ctx.deadline, None  # bounded by count, not by the guard
+            try:
+                k = 0
+                for i, c in enumerate(regen_grid()):
+                    if i % kw["nslices"] == kw["slice"]:
+                        run_one(ctx, helper, c)
+                        k += 1
+                ctx.note("regen_grid_cases", k)
+            finally:
+                ctx.deadline = deadline
+        elif task == "regen":
+            deadline, ctx.deadline = ctx.deadline, None
+            try:
+                first = min(30, kw["examples"])
+                core.hyp_run(ctx, regen_case(), lambda c: run_one(ctx, helper, c), first, chunk=first, seed_salt=5)
+            finally:
+                ctx.deadline = deadline
+            core.hyp_run(ctx, regen_case(), lambda c: run_one(ctx, helper, c), kw["examples"] - first, chunk=15, seed_salt=6)
         elif task == "dfs":
             for threads, nitems, iterable, functor in kw["configs"]:
                 runs, complete = dfs(ctx, helper, threads, nitems, iterable, functor, kw["cap"])
